@@ -191,5 +191,20 @@ fn main() {
         run.bound("scale: 24 entry sequences of 64..5000 entries (periodic walks through both alphabets); an @ignore/file pair (adjacent, and separated by other commands) after every number 0..300 of leading files");
         run.merge(t);
     }
+    // byte sweep: every byte value at the end of a @cwd directory and inside file names
+    {
+        let mut t = Tally::new();
+        for b in 1u16..=255 {
+            let b = b as u8;
+            if [b'\n', 0x09, 0x0b, 0x0c, 0x0d, 0x20, 0x85, 0xa0].contains(&b) {
+                continue;
+            }
+            let text = [b"f0\n@cwd /d".as_slice(), &[b], b"\nf1\n@cwd /e", &[b], b"/\n@ignore\nf2\nf", &[b], b"\n@cwd ", &[b], b"\nf4\n"].concat();
+            t.states += 1;
+            check_text(&mut t, &text);
+        }
+        run.bound("byte sweep: every byte value at the end of a @cwd directory (with and without '/'), as a whole directory and inside a file name");
+        run.merge(t);
+    }
     run.finish();
 }
